@@ -14,11 +14,12 @@ package service
 //@   modifies *
 //@   ensures-local agents:    (client != nil && exists(i, 0, old(len(s.clients)), old(s.clients)[i] == client)) ==> forall(j, 0, len(s.Agents), s.Agents[j] == nil || s.Agents[j].client != client)
 //@   ensures-local listeners: (client != nil && exists(i, 0, old(len(s.clients)), old(s.clients)[i] == client)) ==> forall(j, 0, len(s.Listeners), s.Listeners[j] == nil || s.Listeners[j].client != client)
+//@   ensures-local shrink: len(s.Agents) <= old(len(s.Agents)) && len(s.Listeners) <= old(len(s.Listeners))
 //@   loop "for i := range s.clients"
 //@     invariant same: sameslice(s.clients, old(s.clients)) && forall(k, 0, len(s.clients), s.clients[k] != nil) && forall(k, 0, idx__, s.clients[k] != client)
 //@   loop "for j := range s.Agents"
-//@     invariant kept: forall(k, 0, len(agents), agents[k] == nil || agents[k].client != client) && (cap(agents) == 0 || fresh(arrayof(agents)))
+//@     invariant kept: forall(k, 0, len(agents), agents[k] == nil || agents[k].client != client) && (cap(agents) == 0 || fresh(arrayof(agents))) && len(agents) <= idx__ && sameslice(s.Agents, old(s.Agents))
 //@     invariant ctx:  sameslice(s.clients, old(s.clients)) && forall(k, 0, len(s.clients), s.clients[k] != nil) && client != nil
 //@   loop "for j := range s.Listeners"
-//@     invariant kept: forall(k, 0, len(listeners), listeners[k] == nil || listeners[k].client != client) && (cap(listeners) == 0 || fresh(arrayof(listeners)))
+//@     invariant kept: forall(k, 0, len(listeners), listeners[k] == nil || listeners[k].client != client) && (cap(listeners) == 0 || fresh(arrayof(listeners))) && len(listeners) <= idx__ && sameslice(s.Listeners, old(s.Listeners)) && len(s.Agents) <= old(len(s.Agents))
 //@     invariant ctx:  sameslice(s.clients, old(s.clients)) && forall(k, 0, len(s.clients), s.clients[k] != nil) && client != nil && forall(k, 0, len(s.Agents), s.Agents[k] == nil || s.Agents[k].client != client)
